@@ -174,6 +174,51 @@ def r5(ctx, prog):
     ctx.stats['deferred_tasks'] = n
 
 
+def r6(ctx, prog):
+    ctx.rule('C08.R6', 'A9d (whole program): a token look-up may answer "nothing" — every pointer obtained from Cabinet::at/free/operator[] is '
+                       'null-tested before it is dereferenced, also inside deferred tasks that capture it', floor=25)
+    from rules.C14 import null_guarded
+    n = 0
+    for f in prog.funcs.values():
+        if not f.file.startswith(MODULES):
+            continue
+        for st in f.stmts:
+            if not st or st['k'] != 'DeclStmt':
+                continue
+            for d in st['decls']:
+                if 'init' not in d:
+                    continue
+                c = f.s(f.strip_casts(d['init']))
+                if not (c and c['k'] in q.CALL_KINDS and c.get('fn') in ('free', 'at', 'operator[]') and c.get('cls', '').startswith('tbox::cabinet::Cabinet<')):
+                    continue
+                n += 1
+                bad = []
+                for g in prog.family(f):
+                    lam_sites = [x for x in f.stmts if x and x['k'] == 'LambdaExpr' and x.get('fn') == g.usr] if g is not f else []
+                    for u in g.stmts:
+                        if not (u and u['k'] == 'DeclRefExpr' and (u.get('d') == d['d'] if g is f else u.get('n') == d['n'] and u.get('dk') == 'Var')):
+                            continue
+                        p_, _ = g.up(u['i'])
+                        ps = g.s(p_)
+                        deref = ps is not None and ((ps['k'] == 'MemberExpr' and ps.get('arrow')) or (ps['k'] == 'UnaryOperator' and ps.get('op') == '*') or
+                                                    (ps['k'] == 'CXXMemberCallExpr' and g.strip_casts(ps.get('obj', -1)) == u['i']))
+                        if not deref:
+                            continue
+                        pt = g.cfg.point_of(u['i'])
+                        if g is f:
+                            ok = pt is not None and null_guarded(g, pt, d['d'])
+                        else:
+                            ok = any(f.cfg.point_of(x['i']) and null_guarded(f, f.cfg.point_of(x['i']), d['d']) for x in lam_sites) or \
+                                (pt is not None and null_guarded(g, pt, u.get('d')))
+                        if not ok:
+                            bad.append(g.loc(u['i']))
+                ctx.ob('C08.R6', '%s|%s' % (locks.site_name(prog, f), d['n']), not bad,
+                       'every dereference of %s is behind a null test' % d['n'] if not bad else
+                       '%s comes from Cabinet::%s() and is dereferenced at %s without a null test (the token may already have been freed by someone else)' % (d['n'], c['fn'], bad[0]),
+                       where=f.loc(st['i']))
+    ctx.stats['cabinet_lookups'] = n
+
+
 def run(ctx):
     prog = extract('ALL', extra_units=[instantiate_unit()])
     ctx.guard(r1, ctx, prog)
@@ -181,4 +226,5 @@ def run(ctx):
     ctx.guard(r3, ctx, prog)
     ctx.guard(r4, ctx, prog)
     ctx.guard(r5, ctx, prog)
+    ctx.guard(r6, ctx, prog)
     return prog
